@@ -976,6 +976,91 @@ def run_gp_acq(ctx, specs):
 
 
 # --------------------------------------------------------------------------
+# (c2) HyperTune surrogate (independent GPs per rung level): ensemble predictive distribution
+#      mean = sum_r theta_r mu_r, variance = sum_r theta_r^2 sigma_r^2
+# --------------------------------------------------------------------------
+def gen_hypertune_spec(rng, k=None):
+    levels = [1, 3, 9]
+    nsup = (k % 3) + 1 if k is not None else rng.choice([1, 2, 3])
+    sup = sorted(rng.sample(levels, nsup))
+    w = [rng.uniform(0.15, 1.0) for _ in sup]
+    theta = {str(r): wi / sum(w) for r, wi in zip(sup, w)}
+    return dict(seed=rng.randrange(10 ** 6), d=rng.choice([1, 2, 3]), counts=[rng.randint(3, 8), rng.randint(2, 6), rng.randint(2, 4)],
+                theta=theta, head=rng.choice(["ei", "lcb"]), kappa=rng.uniform(0.3, 3.0), jitter=rng.choice([0.01, 0.1]),
+                cov_scales=[rng.uniform(0.5, 2.5) for _ in levels], inv_bw=rng.uniform(0.8, 3.0),
+                norm_mean=rng.uniform(-1, 1), norm_std=rng.uniform(0.5, 2.0), ncand=rng.randint(1, 4))
+
+
+def run_hypertune(ctx, specs):
+    import syne_tune.optimizer.schedulers.searchers.bayesopt.models.meanstd_acqfunc_impl as M
+    from syne_tune.config_space import uniform
+    from syne_tune.optimizer.schedulers.searchers.utils.hp_ranges_factory import make_hyperparameter_ranges
+    from syne_tune.optimizer.schedulers.searchers.bayesopt.datatypes.common import INTERNAL_METRIC_NAME
+    from syne_tune.optimizer.schedulers.searchers.bayesopt.gpautograd.kernel import Matern52
+    from syne_tune.optimizer.schedulers.searchers.bayesopt.gpautograd.mean import ScalarMeanFunction
+    from syne_tune.optimizer.schedulers.searchers.bayesopt.gpautograd.hypertune.gp_model import (
+        HyperTuneIndependentGPModel, HyperTuneDistributionArguments)
+    from syne_tune.optimizer.schedulers.searchers.bayesopt.gpautograd.hypertune.utils import ExtendFeaturesByResourceMixin
+    from syne_tune.optimizer.schedulers.searchers.bayesopt.models.gp_model import GaussProcPredictor
+    from syne_tune.optimizer.schedulers.searchers.bayesopt.utils.test_objects import create_tuning_job_state
+    levels, rrange = [1, 3, 9], (1, 9)
+    for spec in specs:
+        case = dict(kind="hypertune", spec=spec)
+        rs = np.random.RandomState(spec["seed"])
+        d = spec["d"]
+        with warnings.catch_warnings():
+            warnings.simplefilter("ignore")
+            fparts, tparts = [], []
+            for r, cnt in zip(levels, spec["counts"]):
+                xr = rs.uniform(size=(cnt, d))
+                fparts.append(ExtendFeaturesByResourceMixin(r, rrange).extend_features_by_resource(xr))
+                tparts.append(np.sin(4.0 * xr[:, :1]) + np.sum((xr - 0.3) ** 2, axis=1, keepdims=True) + 1.0 / r
+                              + 0.05 * rs.normal(size=(cnt, 1)))
+            data = {"features": np.vstack(fparts), "targets": np.vstack(tparts)}
+            gm = HyperTuneIndependentGPModel(
+                kernel=Matern52(dimension=d, ARD=False, has_covariance_scale=False),
+                mean_factory=lambda resource: ScalarMeanFunction(), resource_attr_range=rrange,
+                hypertune_distribution_args=HyperTuneDistributionArguments(num_samples=10, num_brackets=3), random_seed=0)
+            gm.create_likelihood(levels)
+            for r, cs in zip(levels, spec["cov_scales"]):
+                gm.likelihood.set_covariance_scale(r, cs)
+            gm.likelihood.kernel.set_params({"inv_bw": spec["inv_bw"]})
+            gm.likelihood.set_ensemble_distribution({int(r): float(t) for r, t in spec["theta"].items()})
+            gm.recompute_states(data)
+            hp = make_hyperparameter_ranges({"x%d" % i: uniform(0.0, 1.0) for i in range(d)})
+            cands = [tuple(float(t) for t in rs.uniform(size=d)) for _ in range(spec["ncand"])]
+            state = create_tuning_job_state(hp_ranges=hp, cand_tuples=cands,
+                                            metrics=[{INTERNAL_METRIC_NAME: float(i)} for i in range(len(cands))])
+            pred = GaussProcPredictor(state=state, gpmodel=gm, fantasy_samples=[], active_metric=INTERNAL_METRIC_NAME,
+                                      normalize_mean=spec["norm_mean"], normalize_std=spec["norm_std"])
+            acq = (M.EIAcquisitionFunction(pred, jitter=spec["jitter"]) if spec["head"] == "ei"
+                   else M.LCBAcquisitionFunction(pred, kappa=spec["kappa"]))
+            x = rs.uniform(0.1, 0.9, size=d)
+            ctx.count(("hypertune", spec), nontrivial=len(spec["theta"]) >= 2)
+            ctx.h("hypertune_ensemble_support", len(spec["theta"]))
+            ctx.h("hypertune_head", spec["head"])
+            v, g = check_acq_gradient(ctx, acq, x, {}, spec["head"], case,
+                                      "HyperTune independent GPs, ensemble on %d rung level(s)" % len(spec["theta"]),
+                                      v_scale_tol=1e-6)
+            # for tiny EI values the absolute tolerance above is blind: relative check against central differences
+            if not np.isnan(v):
+                for i in range(d):
+                    def f(t):
+                        xx = x.copy()
+                        xx[i] = t
+                        return float(np.asarray(acq.compute_acq(xx.reshape(1, -1))).reshape(-1)[0])
+                    fd, fd2 = richardson(f, float(x[i]), 1e-4), richardson(f, float(x[i]), 2e-4)
+                    if abs(fd - fd2) > 1e-3 * abs(fd):
+                        continue
+                    if not abs(fd - g[i]) <= 1e-4 * max(abs(fd), abs(g[i])) + 1e-12 + 20.0 * abs(fd - fd2):
+                        ctx.violation("property", "%s on HyperTune independent GPs (ensemble %r): d acq / d x[%d] = %r but central "
+                                      "differences of compute_acq give %r" % (spec["head"], spec["theta"], i, float(g[i]), fd),
+                                      case=case, signature=dict(function="compute_acq_with_gradient", head=spec["head"],
+                                                                predictor="hypertune ensemble", defect="input_gradient_relative",
+                                                                ensemble_levels=len(spec["theta"])))
+
+
+# --------------------------------------------------------------------------
 # (a2) explicit predictor argument with locally linear stub predictors (exact Jacobians)
 # --------------------------------------------------------------------------
 def make_linear_stub_class():
@@ -1196,6 +1281,9 @@ def run_fit_objective(ctx, specs):
             if not abs(val(v) - f0) <= 1e-10 * max(1.0, abs(f0)):
                 ctx.violation("property", "fitting objective: two evaluations at the same point differ", case=case,
                               signature=dict(sig, defect="value_mismatch"))
+            check_objective_call_sequences(
+                ctx, lambda: create_lbfgs_arguments(criterion=lik, crit_args=[data])[0], v,
+                np.random.RandomState(spec["seed"] + 5), case)
             for i in range(v.size):
                 def f(t):
                     vv = v.copy()
@@ -1234,6 +1322,42 @@ def run_fit_objective(ctx, specs):
                                   case=case, signature=sg)
 
 
+def check_objective_call_sequences(ctx, make_objective, v, rs, case):
+    """The scipy objective is a function of the VALUES in the array it is handed: sequences of calls on one buffer
+    mutated in place between calls (gradient-descent style), repeated calls at one point, and two alternating
+    buffers must each return what a separately created objective returns on a fresh copy of the same values."""
+    obj, ref = make_objective(), make_objective()
+
+    def res(o, arr):
+        f, g = o(arr)
+        return float(np.asarray(f).reshape(-1)[0]), np.array(g, dtype=float).reshape(-1)
+
+    def same(a, b):
+        return abs(a[0] - b[0]) <= 1e-10 * max(1.0, abs(b[0])) and np.allclose(a[1], b[1], rtol=1e-9, atol=1e-10 * max(1.0, abs(b[0])))
+    buf, other = v.copy(), v.copy()
+    other += 0.03 * rs.normal(size=v.size)
+    steps = []
+    for t in range(6):
+        kind = ["same buffer, unchanged", "same buffer, mutated in place", "same buffer, mutated in place",
+                "other buffer", "same buffer, mutated in place", "copy of the buffer"][t]
+        if kind == "same buffer, mutated in place":
+            # x -= lr * g  style update of the caller's own array
+            buf -= 0.02 * rs.uniform(0.2, 1.0) * np.sign(last[1]) * np.minimum(1.0, np.abs(last[1]))
+        arr = other if kind == "other buffer" else (buf.copy() if kind == "copy of the buffer" else buf)
+        got = res(obj, arr)
+        want = res(ref, np.array(arr, dtype=float, copy=True))
+        steps.append(kind)
+        last = want
+        ctx.h("fit_call_sequence", kind)
+        if not same(got, want):
+            ctx.violation("property", "fitting objective, call %d of a sequence (%s): returned value %r / gradient %r but a fresh "
+                          "evaluation at the same parameter values gives %r / %r" % (
+                              t + 1, " -> ".join(steps), got[0], got[1].tolist()[:4], want[0], want[1].tolist()[:4]),
+                          case=case, signature=dict(function="create_lbfgs_arguments objective",
+                                                    defect="depends_on_call_history", step=kind))
+            return
+
+
 def run(ctx, replay=None):
     ctx.rule = ("cases: (a) real EI/LCB/EIpu/CEI acquisition objects on stub predictors returning generated "
                 "(mean, std, cost / constraint) fantasy arrays (nf 1..5, broadcasting both ways, clamped std/cost, "
@@ -1251,7 +1375,10 @@ def run(ctx, replay=None):
                 "at every branch point of the Box-Cox case distinction (lambda in {0, +-5e-8, +-1e-7 +- 1e-12, ...}, "
                 "box corners -1, 2) and with one parameter at a corner of its box; gradients vs Richardson central "
                 "differences (step 1e-4, wider than the branch); both parameter encodings (logarithm, positive/softrelu) with "
-                "parameters exactly ON their bounds, checked with one-sided differences pointing into the box. Non-trivial = a head case with more than "
+                "parameters exactly ON their bounds, checked with one-sided differences pointing into the box; call sequences "
+                "of the objective on one buffer mutated in place / repeated / alternating buffers vs fresh evaluations; "
+                "(c2) EI and LCB on HyperTune independent-GP surrogates with ensemble distributions on 1, 2, 3 rung levels. "
+                "Non-trivial = a head case with more than "
                 "one fantasy column or a second output model; a Cholesky case with n >= 2; a GP case with pending "
                 "candidates and nf > 1; a fitting case with n >= 3; distinct by content hash")
     rng = ctx.rng
@@ -1272,6 +1399,8 @@ def run(ctx, replay=None):
             run_jitter_forced(ctx, [replay["spec"]])
         elif kind == "gp_jitter":
             run_gp_jitter(ctx, [replay["spec"]])
+        elif kind == "hypertune":
+            run_hypertune(ctx, [replay["spec"]])
         return
     n_head = ctx.n(250, 2500)
     specs = [gen_head_spec(rng, head) for head in ("ei", "lcb", "eipu", "cei") for _ in range(n_head)]
@@ -1282,5 +1411,6 @@ def run(ctx, replay=None):
     run_gp_jitter(ctx, [gen_gp_jitter_spec(rng) for _ in range(ctx.n(6, 40))])
     run_gp_acq(ctx, [gen_gp_spec(rng) for _ in range(ctx.n(120, 1200))] +
                [gen_gp_tail_spec(rng) for _ in range(ctx.n(40, 400))])
+    run_hypertune(ctx, [gen_hypertune_spec(rng, k) for k in range(ctx.n(60, 900))])
     run_linear_explicit(ctx, [gen_linear_spec(rng) for _ in range(ctx.n(150, 2000))])
     run_fit_objective(ctx, [gen_fit_spec(rng, k) for k in range(ctx.n(80, 600))])
